@@ -4,7 +4,7 @@ import seqfam, vlib, exprgen
 from exprgen import sql, col, num, strlit
 
 ASSUME = ["texts and patterns over the alphabet {%, _, a, b, .} (the . stands for regex metacharacters); no quote characters",
-          "carriers: WHERE, searched-CASE condition in SELECT, SELECT expression; the HAVING carrier is exercised by C07's check",
+          "carriers: WHERE, searched-CASE condition in SELECT, HAVING over the alias of last_value(s); x LIKE p as a SELECT expression is a pinned finding",
           "x LIKE p with x NULL or missing: the row is rejected / the value is not true"]
 ALPHA = ["%", "_", "a", "b", "."]
 
@@ -34,6 +34,35 @@ def like_scen(pat, texts, carrier, mode, neg=False):
     if mode == "sync":
         sc["mode"] = "sync"
     return sc
+
+
+def having_scen(rng, preds, pats):
+    """HAVING carrier: predicates over the alias of last_value(s) in a tumbling batch of 4 groups"""
+    groups = ["a", "b", "c", "d"]
+    rows, rid = [], 0
+    texts = ["ab", "a", "b%", "", "aab", "xaab", "a.b"]
+    for g in groups:
+        for k in range(rng.choice([1, 2])):
+            rid += 1
+            r = {"id": rid, "ts": 1000 + rid, "g": g}
+            x = rng.choice(texts + [None, "__missing__"])
+            if x != "__missing__":
+                r["s"] = x
+            rows.append(r)
+    n = len(rows)
+    rows.append({"id": n + 1, "ts": 40000, "g": "zz", "s": "zz"})
+    ls = col("ls")
+    kind = rng.choice(preds)
+    like = {"t": "like", "a": ls, "pat": list(rng.choice(pats)), "neg": False}
+    notnull = {"t": "isnull", "a": ls, "neg": True}
+    isnull = {"t": "isnull", "a": ls, "neg": False}
+    having = {"like": like, "notnull": notnull, "isnull": isnull, "like_and_notnull": {"t": "and", "a": like, "b": notnull},
+              "notnull_and_like": {"t": "and", "a": notnull, "b": like}}[kind]
+    sel = [{"al": "ls", "e": col("lv_s")}, {"al": "c", "e": col("cnt")}]
+    meta = {"fam": "postagg", "n": n, "aggdefs": [{"key": "lv_s", "fn": "last_value", "arg": "s"}, {"key": "cnt", "fn": "count_star", "arg": "s"}],
+            "sel": sel, "gsel": 1, "order": [], "limit": 0, "distinct": 0, "having": having}
+    txt = "SELECT g, last_value(s) AS ls, count(*) AS c FROM stream GROUP BY g, TumblingWindow('10s') HAVING %s WITH (TIMESTAMP='ts', TIMEUNIT='ms')" % sql(having)
+    return {"meta": meta, "sql": txt, "rows": rows}
 
 
 def null_scen(colexpr, rows, carrier, neg, mode):
@@ -80,6 +109,9 @@ def run(tier):
                 # WHERE o.f IS NULL with the parent object absent is a pinned finding (NestedIsNullParentAbsent)
                 scen.append(null_scen({"t": "path", "p": ["o", "f"]}, nest_rows[:3] if carrier == "where" else nest_rows, carrier, neg, mode))
     seqfam.run_scenarios(res, scen, "TraceDirect", tag="like")
+    hav = [having_scen(rng, ["like", "notnull", "isnull", "like_and_notnull", "notnull_and_like"], ["a%", "%b", "a_", "%", "%a%", "a%b", "x%aab", "_"]) for _ in range(150 if quick else 1500)]
+    seqfam.run_scenarios(res, hav, "TracePostAgg", tag="having")
+    scen += hav
     seqfam.run_pinned(res, "TraceDirect")
     res.cov["exhaustive"] = True
     npairs = sum(len(s["rows"]) for s in scen)
